@@ -534,6 +534,121 @@ theorem hom_interpolate (Hh : OpsHom O' O h) (xs ys : List α') (rlz : Bool) :
     refine bind_congr_map (fun result => ?_)
     cases rlz <;> simp [hom_removeLeadingZeros Hh]
 
+
+-- ------------------------------------------------------------------ mul_acc, interpolate_batch
+
+theorem hom_mulAcc (Hh : OpsHom O' O h) {β β' : Type} (g : β' → β) (mb : α → β → α) (mb' : α' → β' → α')
+    (hmb : ∀ c y, mb (h c) (g y) = h (mb' c y)) (a : List α') (b : List β') (c : α') :
+    mulAcc O mb (a.map h) (b.map g) (h c) = (mulAcc O' mb' a b c).map (List.map h) := by
+  unfold mulAcc
+  simp only [List.length_map]
+  split
+  · rfl
+  · simp [List.map_zipWith, List.zipWith_map, Hh.add, hmb]
+
+theorem hom_batchEqStep (Hh : OpsHom O' O h) (roots : List α') (x : α') (eq : List α') (k : Nat) :
+    batchEqStep O (roots.map h) (h x) (eq.map h) k = (batchEqStep O' roots x eq k).map (List.map h) := by
+  unfold batchEqStep
+  rw [getAt_map]
+  cases getAt roots (k + 1) with
+  | panic s => rfl
+  | hang => rfl
+  | ok r =>
+    simp only [map_ok, bind_ok]
+    cases eq with
+    | nil => rfl
+    | cons e rest => simp [Hh.add, Hh.mul]
+
+theorem hom_batchEquation (Hh : OpsHom O' O h) (N : Nat) (roots : List α') (x : α') :
+    batchEquation O N (roots.map h) (h x) = (batchEquation O' N roots x).map (List.map h) := by
+  unfold batchEquation
+  by_cases hN : N = 0
+  · rw [if_pos hN, if_pos hN]; rfl
+  · rw [if_neg hN, if_neg hN, getAt_map]
+    cases getAt roots N with
+    | panic s => rfl
+    | hang => rfl
+    | ok top =>
+      simp only [map_ok, bind_ok]
+      have : [h top] = [top].map h := rfl
+      rw [this]
+      exact loopM_map_id (List.map h) _ _ (fun eq k => hom_batchEqStep Hh roots x eq k) _ _
+
+def BatchSt.mapH (h : α' → α) (st : BatchSt α') : BatchSt α :=
+  ⟨st.roots.map h, st.equations.map (List.map h), st.inverses.map h⟩
+
+theorem hom_batchStep (Hh : OpsHom O' O h) (N : Nat) (st : BatchSt α') (xs : List α') :
+    batchStep O N (BatchSt.mapH h st) (xs.map h) = (batchStep O' N st xs).map (BatchSt.mapH h) := by
+  unfold batchStep
+  simp only [BatchSt.mapH]
+  rw [hom_fillZeroRoots Hh]
+  cases fillZeroRoots O' xs st.roots with
+  | panic s => rfl
+  | hang => rfl
+  | ok roots =>
+    simp only [map_ok, bind_ok]
+    rw [mapM'_map h (List.map h) (fun x => batchEquation O N (roots.map h) x)
+      (fun x => batchEquation O' N roots x) (fun x => hom_batchEquation Hh N roots x)]
+    cases mapM' (fun x => batchEquation O' N roots x) xs with
+    | panic s => rfl
+    | hang => rfl
+    | ok eqs =>
+      simp only [map_ok, bind_ok, BatchSt.mapH, List.map_append, Res.ok.injEq, BatchSt.mk.injEq, true_and,
+        List.append_cancel_left_eq]
+      rw [List.zip_map, List.map_map, List.map_map]
+      apply List.map_congr_left
+      intro ex _
+      simp [hom_eval Hh]
+
+theorem hom_batchCombine (Hh : OpsHom O' O h) (N : Nat) (equations : List (List α')) (inverses : List α')
+    (i : Nat) (ys : List α') :
+    batchCombine O N (equations.map (List.map h)) (inverses.map h) i (ys.map h) =
+      (batchCombine O' N equations inverses i ys).map (List.map h) := by
+  unfold batchCombine
+  have hz : List.replicate N O.zero = (List.replicate N O'.zero).map h := by simp [Hh.zero]
+  rw [hz]
+  refine loopM_map_id (List.map h) _ _ (fun poly j => ?_) _ _
+  rw [getAt_map]
+  cases getAt ys j with
+  | panic s => rfl
+  | hang => rfl
+  | ok y =>
+    simp only [map_ok, bind_ok]
+    rw [getAt_map]
+    cases getAt inverses (i * N + j) with
+    | panic s => rfl
+    | hang => rfl
+    | ok d =>
+      simp only [map_ok, bind_ok]
+      rw [getAt_map (List.map h)]
+      cases getAt equations (i * N + j) with
+      | panic s => rfl
+      | hang => rfl
+      | ok eq =>
+        simp [List.map_zipWith, List.zipWith_map, Hh.add, Hh.mul]
+
+theorem hom_interpolateBatch (Hh : OpsHom O' O h) (N : Nat) (xss yss : List (List α')) :
+    interpolateBatch O N (xss.map (List.map h)) (yss.map (List.map h)) =
+      (interpolateBatch O' N xss yss).map (List.map (List.map h)) := by
+  unfold interpolateBatch
+  simp only [List.length_map]
+  by_cases hl : xss.length ≠ yss.length
+  · rw [if_pos hl, if_pos hl]; rfl
+  · rw [if_neg hl, if_neg hl]
+    by_cases hN : N = 0
+    · rw [if_pos hN, if_pos hN]; simp
+    · rw [if_neg hN, if_neg hN]
+      have hinit : (⟨List.replicate (N + 1) O.zero, [], []⟩ : BatchSt α) =
+          BatchSt.mapH h ⟨List.replicate (N + 1) O'.zero, [], []⟩ := by simp [BatchSt.mapH, Hh.zero]
+      rw [hinit, loopM_map (List.map h) (BatchSt.mapH h) _ _ (fun st xs => hom_batchStep Hh N st xs)]
+      refine bind_congr_map (fun st => ?_)
+      simp only [BatchSt.mapH]
+      rw [hom_batchInversion Hh]
+      refine bind_congr_map (fun inverses => ?_)
+      rw [zipIdx_map']
+      exact mapM'_map (fun p : List α' × Nat => (p.1.map h, p.2)) (List.map h) _ _
+        (fun iy => hom_batchCombine Hh N st.equations inverses iy.2 iy.1) _
+
 end
 
 end WinterProofs.C20
